@@ -69,6 +69,10 @@ let answer line =
   | "sem" :: o :: args ->
     (match doc_sem (opcode_of_int (int_of_string o)) (List.map z_of_hex args) with
      | Some v -> "S " ^ hex_of_z v | None -> "N")
+  | "ldsem" :: o :: args ->     (* conversions from / to long double (Mir/DocSpecLD.v); Q = the documented result is a NaN *)
+    (match doc_sem_ld (opcode_of_int (int_of_string o)) (List.map z_of_hex args) with
+     | Some v -> "S " ^ hex_of_z v | None -> "N")
+  | ["ldnan"; a] -> bool01 (ld_is_nan (z_of_hex a))
   | "br" :: o :: args ->
     (match doc_branch (opcode_of_int (int_of_string o)) (List.map z_of_hex args) with
      | Some b -> "B " ^ bool01 b | None -> "N")
